@@ -121,24 +121,79 @@ def r2_no_retention(ctx):
                 where_ = _is_state_target(t, al_fp, infp)
                 if where_ is None:
                     continue
-                leaked = _leaks(st.value, al)
-                if not leaked:
-                    continue
-                n += 1
-                through_fp = isinstance(t, ast.Subscript)
-                ok = through_fp and by_value
-                ctx.check(ok, st, f"{where_} = {norm(st.value)}",
-                          f"{m.name}.{q} keeps a reference to the caller's "
-                          f"`{leaked}` in {where_} without a copy: a later "
-                          "in-place edit by the caller changes the library's "
-                          "state (and change detection compares the object "
-                          "with itself)")
+                leaked_all = _leaks_all(st.value, al)
+                for leaked in leaked_all:
+                    n += 1
+                    through_fp = isinstance(t, ast.Subscript)
+                    ok = through_fp and by_value
+                    ctx.check(ok, st, f"{where_} retains `{leaked}`",
+                              f"{m.name}.{q} keeps a reference to the "
+                              f"caller's `{leaked}` in {where_} without a "
+                              "copy: a later in-place edit by the caller "
+                              "changes the library's state (and change "
+                              "detection compares the object with itself)")
     ctx.floor("parameter-derived stores into long-lived state", n, 3)
 
 
 def _leaks(value, al):
+    r = _leaks0(value, al)
+    return None if r in SCALARS else r
+
+
+def _leaks_all(value, al):
+    """every by-value parameter the stored expression may carry"""
+    out = []
+    parts = [value]
+    if isinstance(value, (ast.Tuple, ast.List, ast.Set)):
+        parts = list(value.elts)
+    elif isinstance(value, ast.Dict):
+        parts = list(value.values)
+    elif isinstance(value, ast.BinOp) and isinstance(value.op, ast.Add):
+        parts = [value.left, value.right]
+    for p_ in parts:
+        if p_ is not value and isinstance(p_, (ast.Tuple, ast.List, ast.Dict,
+                                               ast.BinOp)):
+            for r in _leaks_all(p_, al):
+                if r not in out:
+                    out.append(r)
+            continue
+        if isinstance(p_, ast.Name) and p_.id in al and \
+                al[p_.id].startswith("holds:"):
+            # a local tuple/list literal: look at what it holds
+            for st in ast.walk(_enclosing_func(p_)):
+                if isinstance(st, ast.Assign) and isinstance(
+                        st.targets[0], ast.Name) and \
+                        st.targets[0].id == p_.id and isinstance(
+                            st.value, (ast.Tuple, ast.List, ast.Dict)):
+                    for r in _leaks_all(st.value, al):
+                        if r not in out:
+                            out.append(r)
+            continue
+        r = _leaks(p_, al)
+        if r and r not in out:
+            out.append(r)
+    return out
+
+
+def _enclosing_func(node):
+    n = node
+    while n is not None and not isinstance(n, (ast.FunctionDef,
+                                               ast.AsyncFunctionDef)):
+        n = getattr(n, "_parent", None)
+    return n or node
+
+
+def _leaks0(value, al):
     """name of the parameter whose object (or element) the expression may
     carry by reference, or None (fresh / scalar)."""
+    if isinstance(value, ast.BinOp) and isinstance(value.op, ast.Add):
+        # tuple/list concatenation keeps the elements
+        for side in (value.left, value.right):
+            if isinstance(side, (ast.Name, ast.Tuple, ast.List)):
+                r = _leaks(side, al)
+                if r:
+                    return r
+        return None
     fr = effects.freshness(value)
     if fr == "deep":
         return None
@@ -175,6 +230,8 @@ def _leaks(value, al):
         b = effects.base_name(value)
         if b in al:
             src = al[b]
+            if src.startswith("holds:"):
+                return src.split(":")[-1]
             if src.startswith("shallowof:"):
                 return None if isinstance(value, ast.Name) else \
                     src.split(":")[-1]
@@ -255,6 +312,12 @@ def r4_no_library_edit_of_settings(ctx):
                "functions")
 
 
+def r5_change_detection(ctx):
+    fitrules.setitem_invalidation(
+        ctx, why=" (a caller editing a previously passed parameter set in "
+        "place and passing it again is then not noticed)")
+
+
 RULES = [
     ("C10-R1", "no in-place mutation of by-value arguments", r1_no_mutation),
     ("C10-R2", "no retention of caller objects by reference",
@@ -262,4 +325,6 @@ RULES = [
     ("C10-R3", "stored settings are handed out as copies", r3_no_handout),
     ("C10-R4", "the library does not edit stored settings in place",
      r4_no_library_edit_of_settings),
+    ("C10-R5", "change detection compares the full state of the stored and "
+     "the passed settings", r5_change_detection),
 ]
